@@ -665,6 +665,19 @@ def extract_h2(repo, parents):
         raise ExtractError("_receive_response_body: `amount = ...` not found exactly once")
     out.append(f"/-- `_receive_response_body` acknowledges `{amt[0]}` per DataReceived event -/")
     out.append("def ackUsesFlowControlledLength : Bool := " + ("true" if amt[0] == "event.flow_controlled_length" else "false"))
+    # ---- response assembly -----------------------------------------------------------------------
+    fn = _find_func(tree, "_receive_stream_event", cls=cls)
+    ifs = [n for n in ast.walk(fn) if isinstance(n, ast.If) and "StreamReset" in ast.unparse(n.test)]
+    ok = (len(ifs) == 1 and ast.unparse(ifs[0].test) == "isinstance(event, h2.events.StreamReset)" and len(ifs[0].body) == 1
+          and isinstance(ifs[0].body[0], ast.Raise) and "RemoteProtocolError" in ast.unparse(ifs[0].body[0]) and not ifs[0].orelse)
+    out.append("/-- `_receive_stream_event`: `if isinstance(event, StreamReset): raise RemoteProtocolError(event)`, unconditionally -/")
+    out.append("def h2ResetAlwaysFails : Bool := " + ("true" if ok else "false"))
+    fn = _find_func(tree, "_receive_response_body", cls=cls)
+    breaks = [n for n in ast.walk(fn) if isinstance(n, ast.If) and any(isinstance(b, ast.Break) for b in n.body)]
+    ok = len(breaks) == 1 and ast.unparse(breaks[0].test) == "isinstance(event, h2.events.StreamEnded)" and \
+        not any(isinstance(n, ast.Return) for n in ast.walk(fn))
+    out.append("/-- `_receive_response_body` leaves its loop on StreamEnded and on nothing else -/")
+    out.append("def h2BodyEndsOnlyOnStreamEnded : Bool := " + ("true" if ok else "false"))
     # ---- stream slots ---------------------------------------------------------------------------
     fn = _find_func(tree, "handle_async_request", cls=cls)
     src_lines = {}
